@@ -22,6 +22,8 @@ def build_grammar(g):
     if g["kind"] == "cfg":
         return CFG.depth_constraint(dsl, treq, g["max_depth"], g.get("min_var", 1), g.get("n_gram", 2), False,
                                     {O.ty(t) for t in g.get("const_types", [])})
+    if g["kind"] == "inf":
+        return CFG.depth_constraint(dsl, treq, -1, 1, g.get("n_gram", 2), False, set())
     if g["kind"] == "size":
         return TTCFG.size_constraint(dsl, treq, g["max_size"], g.get("n_gram", 2))
     if g["kind"] in ("ucfg", "udfta"):
@@ -73,6 +75,8 @@ def make_weights(grammar, w):
                 x = 10.0 ** (-rng.randint(0, 6))
             elif kind == "ties":
                 x = float(rng.choice([1, 1, 2, 4]))
+            elif kind == "rare_leaf":
+                x = 0.01 if getattr(P, "primitive", None) in w["rare"] else 0.5 + rng.random()
             else:
                 raise ValueError(kind)
             probs[S][P] = x
@@ -130,7 +134,10 @@ def impl(case):
     elif grammar.start not in grammar.rules:
         return {"skip": True, "why": "empty language"}
     n = grammar.programs()
-    if n <= 0 or n > case.get("max_lang", 1500):
+    if case["grammar"]["kind"] == "inf":
+        if n >= 0:
+            return {"skip": True, "why": "the unbounded grammar is finite"}
+    elif n <= 0 or n > case.get("max_lang", 1500):
         return {"skip": True, "why": "language size %d outside [1, max_lang]" % n}
     if is_u:
         return impl_u(case, grammar)
